@@ -1,6 +1,7 @@
 package props
 
 import (
+	"bytes"
 	"fmt"
 	"github.com/shopspring/decimal"
 	"github.com/tyler-sommer/stick"
@@ -288,6 +289,12 @@ func (p *c06) Init(tier string, seed int64) {
 	for _, d := range []int{8, 11, 12, 13, 14, 17, 33, 40} {
 		d := d
 		p.enum = append(p.enum, func() (*Program, string) { return nil, fmt.Sprintf("for/deep/%d", d) })
+	}
+	// the element a loop hands to its body is the element an index finds: structs whose String / Number / Boolean
+	// methods have pointer receivers (the value has none of them, a pointer to it has all)
+	for k := 0; k < 5; k++ {
+		k := k
+		p.enum = append(p.enum, func() (*Program, string) { return nil, fmt.Sprintf("for/struct-elements/%d", k) })
 	}
 	// --- loops: sequence kind x length x form ---
 	for _, sk := range c06SeqKinds() {
@@ -634,6 +641,9 @@ func (p *c06) Run(i int) (res fw.Result) {
 		} else if strings.HasPrefix(sig, "for/long/") {
 			p.runLong(&res, sig)
 			return
+		} else if strings.HasPrefix(sig, "for/struct-elements/") {
+			p.runStructElems(&res, sig)
+			return
 		} else if strings.HasPrefix(sig, "for/deep/") {
 			p.runDeep(&res, sig)
 			return
@@ -758,6 +768,44 @@ func (p *c06) runMultiEntry(res *fw.Result, sig string) {
 	}
 	if bad != "" {
 		res.Fail("output", "c06:"+sig, fmt.Sprintf("loop over %d entries renders %q: %s", n, clip(lib.out, 300), bad), prog.describe())
+	}
+}
+
+// runStructElems: what a loop body sees of an element - printed, as a condition, as a number, its fields - is what
+// the same element looked up by its index shows.
+func (p *c06) runStructElems(res *fw.Result, sig string) {
+	var k int
+	fmt.Sscanf(strings.TrimPrefix(sig, "for/struct-elements/"), "%d", &k)
+	var xs stick.Value
+	switch k {
+	case 0:
+		xs = []gen.PtrStringer{{S: "a"}, {S: "b"}, {S: ""}}
+	case 1:
+		xs = []gen.PtrBoolean{{B: true}, {B: false}, {B: true}}
+	case 2:
+		xs = []gen.PtrNumber{{N: 3}, {N: 0}, {N: -2}}
+	case 3:
+		xs = &[]gen.PtrStringer{{S: "p"}, {S: "q"}, {S: "r"}}
+	default:
+		xs = [3]gen.PtrBoolean{{B: false}, {B: true}, {B: false}}
+	}
+	probe := func(v string) string {
+		return "[{{ " + v + " }}|{% if " + v + " %}T{% else %}F{% endif %}|{{ " + v + " + 1 }}|{{ " + v + " ~ 'x' }}|{{ " + v + " ? 'y' : 'n' }}]"
+	}
+	loop := "{% for v in xs %}" + probe("v") + "{% endfor %}{% for k, v in xs %}{{ k }}" + probe("v") + "{% endfor %}"
+	idx := probe("xs[0]") + probe("xs[1]") + probe("xs[2]") + "0" + probe("xs[0]") + "1" + probe("xs[1]") + "2" + probe("xs[2]")
+	render := func(src string) (string, error) {
+		var buf bytes.Buffer
+		err := stick.New(nil).Execute(src, &buf, map[string]stick.Value{"xs": xs})
+		return buf.String(), err
+	}
+	a, ea := render(loop)
+	b, eb := render(idx)
+	res.UniqueNT = 1
+	res.Evals = 2
+	res.AddClass("struct-elements")
+	if ea != nil || eb != nil || a != b {
+		res.Fail("output", "c06:"+sig, fmt.Sprintf("elements of %T: the loop renders %q (error %v), the same elements looked up by index %q (error %v)", xs, a, ea, b, eb), map[string]interface{}{"loop": loop, "indexed": idx})
 	}
 }
 
